@@ -3,6 +3,7 @@ import json
 import os
 import random
 import re
+import resource
 import shutil
 import subprocess
 
@@ -17,10 +18,16 @@ META = {
             "list and that it equals the model's `steps`. The list is tied to the binary by strace (observed syscalls = "
             "extracted operations), each operation's model to the OS by replaying every prefix with real os calls against "
             "the model, and the property is tested directly by SIGKILLing the real langlint binary before each syscall "
-            "(strace fault injection) and inspecting the path, then running it again and listing the directory.",
+            "(strace fault injection) and inspecting the path, then running it again and listing the directory. The same direct "
+            "oracle (path — and the file it is linked to — holds the complete original or the complete new content; a later run "
+            "leaves exactly the new file) is applied to message files named through a symbolic link, through a hard link and in "
+            "a read-only directory, under SIGKILL before every syscall, an error injected into every syscall, a write cut in the "
+            "middle by a file-size limit (real binary and, as EFBIG, the real rewriteFile in-process) and a full tmpfs (ENOSPC); "
+            "these direct oracles run even when the translator fails closed on changed source.",
     "note": "trusted: Lean kernel; tools/extract_c36 (fails closed; success path only: error-handling branches are not "
-            "modelled); POSIX rename(2) atomicity (modelled as one step); strace for observation/kill injection (stage is "
-            "skipped with a note if ptrace is unavailable). 'Process stops' = process death, not power loss: durability "
+            "modelled); POSIX rename(2) atomicity (modelled as one step); strace for observation/kill injection (that part is "
+            "skipped with a note if ptrace is unavailable; so is the full-file-system part if no tmpfs can be mounted). The Lean "
+            "model has three plain names in one directory: links and failing writes are covered by the direct oracles only. 'Process stops' = process death, not power loss: durability "
             "(fsync) is out of scope. Unpatched /repo violates the property: after Rename(path, bak) the path does not exist "
             "(C36_old_counterexample); fixes/C36.patch renames the temporary file over the original.",
     "technique": "Lean 4 proof (sound abstract interpretation of operation lists, induction over the list) + go/ast translator "
@@ -113,24 +120,36 @@ def _observed_ops(text, target):
     return ops
 
 
-def _strace_stage(ctx, extracted):
+VIAS = ("direct", "symlink", "hardlink", "rodir")
+
+
+def _binary_stage(ctx, extracted):
+    """The real langlint binary, on message files reached directly, through a symbolic link, through a hard link and
+    in a read-only directory: observed syscalls; SIGKILL before every syscall; an error injected into every syscall;
+    the process stopped in the middle of the write by a file-size limit; a file system that runs full (tiny tmpfs).
+    Oracle after every crashed / failed run: the path (and the other name of a linked file) holds the complete
+    original or the complete formatted content, and a later undisturbed run leaves exactly the formatted file.
+    `extracted` is None when the translator failed closed: the comparison of the observed syscalls is then skipped,
+    the crash oracle is not."""
     exe = os.path.join(ctx.out, "langlint")
     rc, out = ctx.go(["build", "-o", exe, "./tools/langlint"], timeout=900)
     if rc != 0:
         ctx.log(out[-2000:])
         ctx.broken.append("go build ./tools/langlint failed")
         return
+    have_strace = True
     if not shutil.which("strace"):
-        ctx.notes.append("strace not installed: syscall observation and kill injection skipped")
-        ctx.coverage["strace_stage"] = "skipped (no strace)"
-        return
-    probe = subprocess.run(["strace", "-o", os.devnull, "true"], stdout=subprocess.PIPE, stderr=subprocess.STDOUT, text=True)
-    if probe.returncode != 0:
-        ctx.notes.append("strace cannot trace here (%s): syscall observation and kill injection skipped" % probe.stdout.strip()[-120:])
-        ctx.coverage["strace_stage"] = "skipped (ptrace unavailable)"
-        return
+        ctx.notes.append("strace not installed: syscall observation and kill/error injection skipped")
+        have_strace = False
+    else:
+        probe = subprocess.run(["strace", "-o", os.devnull, "true"], stdout=subprocess.PIPE, stderr=subprocess.STDOUT, text=True)
+        if probe.returncode != 0:
+            ctx.notes.append("strace cannot trace here (%s): syscall observation and kill/error injection skipped" % probe.stdout.strip()[-120:])
+            have_strace = False
 
     rnd = random.Random(ctx.seed * 7919 + 36)
+    root_user = os.geteuid() == 0
+    NOBODY = 65534
 
     def content(kind):
         if kind == "small":
@@ -141,28 +160,86 @@ def _strace_stage(ctx, extracted):
         keys = ["k%05d" % v for v in rnd.sample(range(100000), n)]     # distinct: duplicate keys would make langlint exit 1
         return b"[big]\n" + b"".join(("%s=value %d {{x}}\n" % (k, i)).encode() for i, k in enumerate(keys))
 
-    scen = [("small", "messages_xx.txt", 0o644, None), ("mid", "my messages.txt", 0o600, None),
-            ("small", "messages_en.txt", 0o664, b"stale temporary file")]
+    # (content kind, file name, mode, stale temporary file, how the path reaches the file)
+    scen = [("small", "messages_xx.txt", 0o644, None, "direct"), ("mid", "my messages.txt", 0o600, None, "direct"),
+            ("small", "messages_en.txt", 0o664, b"stale temporary file", "direct"),
+            ("small", "messages_sl.txt", 0o644, None, "symlink"), ("small", "messages_hl.txt", 0o640, None, "hardlink")]
     if not ctx.quick:
-        scen += [("large", "messages_big.txt", 0o644, None), ("crlf", "messages_fr.txt", 0o640, b""),
-                 ("mid", "m.langlint-bak", 0o644, None), ("mid", "messages_ja.txt", 0o600, b"x" * 100000)]
+        scen += [("large", "messages_big.txt", 0o644, None, "direct"), ("crlf", "messages_fr.txt", 0o640, b"", "direct"),
+                 ("mid", "m.langlint-bak", 0o644, None, "direct"), ("mid", "messages_ja.txt", 0o600, b"x" * 100000, "direct"),
+                 ("mid", "messages_de.txt", 0o600, b"stale", "symlink"), ("large", "messages_pt.txt", 0o644, None, "symlink"),
+                 ("crlf", "messages_it.txt", 0o644, b"", "hardlink")]
 
     root = os.path.join(ctx.scratch, "c36dirs")
-    want = [_op_str(o) for o in extracted]
-    crash_points, reruns, observed_once = 0, 0, None
+    want = [_op_str(o) for o in extracted] if extracted else None
+    tr = os.path.join(ctx.out, "c36_trace.txt")
+    n = {"kill_points": 0, "error_points": 0, "fsize_points": 0, "enospc_points": 0, "rodir_points": 0,
+         "later_runs": 0, "later_runs_same_as_reference": 0}
+    per_via, observed_once = {}, None
 
-    def fresh(i, orig, name, mode, stale):
-        d = os.path.join(root, "s%d" % i)
-        shutil.rmtree(d, ignore_errors=True)
-        os.makedirs(d)
-        p = os.path.join(d, name)
-        with open(p, "wb") as f:
-            f.write(orig)
-        os.chmod(p, mode)
-        if stale is not None:
-            with open(p + ".langlint-tmp", "wb") as f:
-                f.write(stale)
-        return d, p
+    class Site:
+        """one scenario laid out on disk: <d>/dir/<name> is the path given to langlint; for a linked file the content
+        lives in <d>/real/<name>"""
+        def __init__(self, d, kind, name, mode, stale, via, orig):
+            self.d, self.kind, self.name, self.mode, self.stale, self.via, self.orig = d, kind, name, mode, stale, via, orig
+            self.work, self.real = os.path.join(d, "dir"), os.path.join(d, "real")
+            self.p = os.path.join(self.work, name)
+            self.other = os.path.join(self.real, name) if via in ("symlink", "hardlink") else None
+            self.new = None
+
+        def wipe(self):
+            if os.path.isdir(self.work):
+                os.chmod(self.work, 0o755)
+            shutil.rmtree(self.d, ignore_errors=True)
+
+        def fresh(self):
+            self.wipe()
+            os.makedirs(self.work)
+            first = self.other or self.p
+            if self.other:
+                os.makedirs(self.real)
+            with open(first, "wb") as f:
+                f.write(self.orig)
+            os.chmod(first, self.mode)
+            if self.via == "symlink":
+                os.symlink(os.path.join("..", "real", self.name), self.p)
+            elif self.via == "hardlink":
+                os.link(first, self.p)
+            if self.stale is not None:
+                with open(self.p + ".langlint-tmp", "wb") as f:
+                    f.write(self.stale)
+            if self.via == "rodir":
+                if root_user:                      # the unprivileged user of the run owns the file but cannot write the directory
+                    os.chown(self.p, NOBODY, NOBODY)
+                os.chmod(self.d, 0o755)
+                os.chmod(self.work, 0o555)
+            self.initial = self.snapshot()
+
+        def writable(self):
+            if self.via == "rodir":
+                os.chmod(self.work, 0o755)
+
+        def snapshot(self):
+            snap = {}
+            for sub in ("dir", "real"):
+                dd = os.path.join(self.d, sub)
+                if os.path.isdir(dd):
+                    for e in sorted(os.listdir(dd)):
+                        q = os.path.join(dd, e)
+                        snap[sub + "/" + e] = ("link", os.readlink(q)) if os.path.islink(q) else ("file", read(q), os.stat(q).st_mode & 0o7777)
+            return snap
+
+        def listing(self):
+            return ["%s/%s" % (sub, e) for sub in ("dir", "real") if os.path.isdir(os.path.join(self.d, sub))
+                    for e in sorted(os.listdir(os.path.join(self.d, sub)))]
+
+        def clean_listing(self):
+            return ["dir/" + self.name] + (["real/" + self.name] if self.other else [])
+
+        def describe(self):
+            return "scenario %s name=%r mode=%o stale_tmp=%s path-is=%s" % (self.kind, self.name, self.mode, short(self.stale), {
+                "direct": "regular file", "symlink": "symbolic link to ../real/" + self.name,
+                "hardlink": "hard link of ../real/" + self.name, "rodir": "regular file in a read-only directory"}[self.via])
 
     def read(p):
         try:
@@ -174,63 +251,239 @@ def _strace_stage(ctx, extracted):
     def short(b):
         return "absent" if b is None else "%d bytes %r" % (len(b), b[:40])
 
-    for i, (kind, name, mode, stale) in enumerate(scen):
-        orig = content(kind)
-        # reference: an undisturbed run gives the new content
-        d, p = fresh(i, orig, name, mode, stale)
-        r = subprocess.run([exe, p], stdout=subprocess.PIPE, stderr=subprocess.STDOUT)
-        new = read(p)
-        if r.returncode != 0 or new is None or new == orig or sorted(os.listdir(d)) != [name]:
-            ctx.fail("rewrite-residue" if new not in (None, orig) else "rewrite-failed",
+    def launch(cmd, fsize=None, unprivileged=False):
+        def pre():
+            if fsize is not None:
+                resource.setrlimit(resource.RLIMIT_FSIZE, (fsize, resource.getrlimit(resource.RLIMIT_FSIZE)[1]))
+            if unprivileged and root_user:
+                os.setgroups([])
+                os.setgid(NOBODY)
+                os.setuid(NOBODY)
+        return subprocess.run(cmd, stdout=subprocess.PIPE, stderr=subprocess.STDOUT,
+                              preexec_fn=pre if (fsize is not None or unprivileged) else None)
+
+    def after_stop(site, where, rc):
+        """oracle after a run that was killed or failed (or, unknowingly, completed)"""
+        per_via[site.via] = per_via.get(site.via, 0) + 1
+        got = read(site.p)
+        if got != site.orig and got != site.new:
+            ctx.fail("crash-window", "after the process stopped the path holds neither the complete original nor the complete new content",
+                     input=where, got="rc=%d path: %s ; files=%s" % (rc, short(got), site.listing()), want="original or formatted content")
+            return
+        if site.other:
+            o = read(site.other)
+            if o != site.orig and o != site.new:
+                ctx.fail("crash-window-linked", "after the process stopped the file the path was linked to holds neither the complete original nor the complete new content",
+                         input=where, got="rc=%d linked file: %s ; files=%s" % (rc, short(o), site.listing()), want="original or formatted content")
+                return
+        if rc == 0 and got != site.new:
+            ctx.fail("rewrite-failed", "langlint exits 0 but the path does not hold the new content", input=where, got=short(got))
+            return
+        # a later undisturbed run completes the job and leaves no stray file
+        site.writable()
+        if site.snapshot() == site.initial and site.via != "rodir":
+            n["later_runs_same_as_reference"] += 1      # nothing changed: the later run IS the reference run made above
+            return
+        r = launch([exe, site.p])
+        n["later_runs"] += 1
+        after, listing = read(site.p), site.listing()
+        if r.returncode != 0 or after != site.new or listing != site.clean_listing():
+            ctx.fail("crash-residue", "a later run after the stop does not leave exactly the reformatted file",
+                     input=where, got="rc=%d content=%s files=%s" % (r.returncode, short(after), listing), want="files=%s" % site.clean_listing())
+
+    def reference(site):
+        site.fresh()
+        site.writable()
+        r = launch([exe, site.p])
+        new = read(site.p)
+        if r.returncode != 0 or new is None or new == site.orig or site.listing() != site.clean_listing():
+            ctx.fail("rewrite-residue" if new not in (None, site.orig) else "rewrite-failed",
                      "an undisturbed langlint run does not leave exactly the reformatted file",
-                     input="scenario %s name=%r stale_tmp=%s" % (kind, name, short(stale)),
-                     got="rc=%d dir=%s" % (r.returncode, sorted(os.listdir(d))))
+                     input=site.describe(), got="rc=%d files=%s" % (r.returncode, site.listing()))
+            return False
+        site.new = new
+        return True
+
+    strace = ["strace", "-f", "-e", "signal=none", "-e", "trace=" + TRACE]
+    sites = []
+    for i, (kind, name, mode, stale, via) in enumerate(scen):
+        site = Site(os.path.join(root, "s%d" % i), kind, name, mode, stale, via, content(kind))
+        if not reference(site):
+            continue
+        sites.append(site)
+        if not have_strace:
             continue
         # observed syscall sequence of a complete run
-        d, p = fresh(i, orig, name, mode, stale)
-        tr = os.path.join(ctx.out, "c36_trace_%d.txt" % i)
-        subprocess.run(["strace", "-f", "-e", "signal=none", "-e", "trace=" + TRACE, "-o", tr, exe, p],
-                       stdout=subprocess.PIPE, stderr=subprocess.STDOUT)
+        site.fresh()
+        subprocess.run(strace + ["-o", tr, exe, site.p], stdout=subprocess.PIPE, stderr=subprocess.STDOUT)
         with open(tr, errors="replace") as f:
-            obs = _observed_ops(f.read(), p)
+            text = f.read()
+        obs = _observed_ops(text, site.p)
+        called = {sn for sn in TRACE.split(",") if re.search(r"^\d+\s+(<\.\.\. )?%s[( ]" % sn, text, re.M)}
         observed_once = observed_once or obs
-        if obs != want:
+        if want is not None and obs != want:
             ctx.broken.append("observed syscall sequence of langlint differs from the operations extracted from the source "
-                              "(scenario %s): observed %s, extracted %s" % (kind, ",".join(obs), ",".join(want)))
-        # kill the process before the K-th call of each traced syscall, for every K (strace counts `when` per syscall name)
+                              "(%s): observed %s, extracted %s" % (site.describe(), ",".join(obs), ",".join(want)))
+        # kill the process before the K-th call of each traced syscall, for every K (strace counts `when` per syscall name);
+        # then, instead of the kill, make that call fail
+        errno_of = {"write": "ENOSPC", "openat": "EACCES", "renameat": "EXDEV", "renameat2": "EXDEV", "unlinkat": "EBUSY"}
+        do_errors = (not ctx.quick) or i == 1 or via != "direct"
         for sysname in TRACE.split(","):
-            k = 0
-            while k < 400:
-                k += 1
-                d, p = fresh(i, orig, name, mode, stale)
-                r = subprocess.run(["strace", "-f", "-e", "signal=none", "-e", "trace=" + TRACE,
-                                    "-e", "inject=%s:signal=SIGKILL:when=%d" % (sysname, k), "-o", tr, exe, p],
-                                   stdout=subprocess.PIPE, stderr=subprocess.STDOUT)
-                if r.returncode not in (-9, 137):
-                    break                    # fewer than k calls of this syscall: the run completed
-                crash_points += 1
-                with open(tr, errors="replace") as f:
-                    text = f.read()
-                at = [l for l in text.splitlines() if "= ?" in l or "<unfinished" in l]
-                where = "scenario %s name=%r mode=%o stale_tmp=%s: SIGKILL before call #%d of %s: %s" % (
-                    kind, name, mode, short(stale), k, sysname, (at[-1] if at else "?")[:200])
-                got = read(p)
-                if got != orig and got != new:
-                    ctx.fail("crash-window", "after the process was killed the path holds neither the complete original nor the complete new content",
-                             input=where, got=short(got) + " dir=" + str(sorted(os.listdir(d))), want="original or formatted content")
+            for what in ("kill", "error"):
+                if (what == "error" and not do_errors) or sysname not in called:    # not called in a complete run: no point to stop at
                     continue
-                # a later successful run
-                r = subprocess.run([exe, p], stdout=subprocess.PIPE, stderr=subprocess.STDOUT)
-                reruns += 1
-                after, listing = read(p), sorted(os.listdir(d))
-                if r.returncode != 0 or after != new or listing != [name]:
-                    ctx.fail("crash-residue", "a later run after the crash does not leave exactly the reformatted file",
-                             input=where, got="rc=%d content=%s dir=%s" % (r.returncode, short(after), listing), want="dir=[%r]" % name)
+                k = 0
+                while k < 400:
+                    k += 1
+                    site.fresh()
+                    if os.path.exists(tr):
+                        os.remove(tr)
+                    inj = "signal=SIGKILL" if what == "kill" else "error=" + errno_of.get(sysname, "EIO")
+                    r = subprocess.run(strace + ["-e", "inject=%s:%s:when=%d" % (sysname, inj, k), "-o", tr, exe, site.p],
+                                       stdout=subprocess.PIPE, stderr=subprocess.STDOUT)
+                    text = ""
+                    if os.path.exists(tr):
+                        with open(tr, errors="replace") as f:
+                            text = f.read()
+                    if what == "kill":
+                        if r.returncode not in (-9, 137):
+                            break                    # fewer than k calls of this syscall: the run completed
+                        at = [l for l in text.splitlines() if "= ?" in l or "<unfinished" in l]
+                        n["kill_points"] += 1
+                        where = "%s: SIGKILL before call #%d of %s: %s" % (site.describe(), k, sysname, (at[-1] if at else "?")[:200])
+                    else:
+                        at = [l for l in text.splitlines() if "(INJECTED)" in l]
+                        if not at:
+                            break
+                        n["error_points"] += 1
+                        where = "%s: call #%d of %s made to fail: %s" % (site.describe(), k, sysname, at[-1][:200])
+                    after_stop(site, where, r.returncode)
+
+    # the write stops in the MIDDLE: a file-size limit lets the kernel write the first L bytes, the next write call
+    # fails (EFBIG, or SIGXFSZ ends the process)
+    for site in sites:
+        if len(site.new) < 3 or (ctx.quick and site.kind == "small" and site.via == "direct"):
+            continue
+        limits = {rnd.randrange(1, len(site.new))}
+        if not ctx.quick:
+            limits |= {0, 1, len(site.new) // 2, len(site.new) - 1, rnd.randrange(1, len(site.new))}
+        for lim in sorted(limits):
+            site.fresh()
+            r = launch([exe, site.p], fsize=lim)
+            n["fsize_points"] += 1
+            after_stop(site, "%s: file-size limit (RLIMIT_FSIZE, `ulimit -f`) of %d bytes, formatted content is %d bytes" % (
+                site.describe(), lim, len(site.new)), r.returncode)
+
+    # a message file in a directory the user cannot write: the run fails (or finds another way); same oracle
+    for j, (kind, mode) in enumerate([("mid", 0o644)] if ctx.quick else [("mid", 0o644), ("small", 0o600), ("large", 0o664)]):
+        site = Site(os.path.join(root, "r%d" % j), kind, "messages_ro.txt", mode, None, "rodir", content(kind))
+        if root_user:
+            os.makedirs(root, exist_ok=True)
+            for q in (ctx.scratch, root):           # the unprivileged user must be able to reach the directory
+                os.chmod(q, os.stat(q).st_mode | 0o011)
+            os.chmod(exe, 0o755)
+            os.chmod(ctx.out, os.stat(ctx.out).st_mode | 0o011)
+        if not reference(site):
+            continue
+        for lim in [None, rnd.randrange(1, len(site.new))] + ([] if ctx.quick else [0, len(site.new) // 2]):
+            site.fresh()
+            r = launch([exe, site.p], fsize=lim, unprivileged=True)
+            n["rodir_points"] += 1
+            after_stop(site, "%s: run as a user who cannot write the directory, file-size limit %s" % (site.describe(), lim), r.returncode)
+        site.wipe()
+
+    # a file system that runs full during the write (ENOSPC after a partial write): a tiny tmpfs, when one can be mounted
+    mnt = os.path.join(ctx.scratch, "c36full")
+    os.makedirs(mnt, exist_ok=True)
+    mounted = subprocess.run(["mount", "-t", "tmpfs", "-o", "size=1024k,mode=755", "tmpfs", mnt],
+                             stdout=subprocess.PIPE, stderr=subprocess.STDOUT).returncode == 0 if shutil.which("mount") else False
+    if not mounted:
+        ctx.notes.append("cannot mount a tmpfs here: the full-file-system (ENOSPC) runs are skipped")
+    else:
+        try:
+            for j, via in enumerate(("direct", "symlink", "hardlink")):
+                site = Site(os.path.join(mnt, "f%d" % j), "large", "messages_full.txt", 0o644, None, via, content("large"))
+                if not reference(site):
+                    continue
+                for free in ([rnd.choice([0, 4096 * rnd.randrange(1, 20)])] if ctx.quick else [0, 4096, 4096 * rnd.randrange(2, 20)]):
+                    site.fresh()
+                    filler = os.path.join(mnt, "filler")
+                    with open(filler, "wb", buffering=0) as f:      # fill the file system, then give `free` bytes back
+                        size = 0
+                        for chunk in (65536, 4096):
+                            while True:
+                                try:
+                                    size += f.write(b"\0" * chunk)
+                                except OSError:
+                                    break
+                        f.truncate(max(0, size - free))
+                    r = launch([exe, site.p])
+                    os.remove(filler)
+                    n["enospc_points"] += 1
+                    after_stop(site, "%s: file system full (tmpfs with %d bytes free), formatted content is %d bytes" % (
+                        site.describe(), free, len(site.new)), r.returncode)
+                site.wipe()
+        finally:
+            if subprocess.run(["umount", mnt], stdout=subprocess.PIPE, stderr=subprocess.STDOUT).returncode != 0:
+                subprocess.run(["umount", "-l", mnt], stdout=subprocess.PIPE, stderr=subprocess.STDOUT)
+
+    for site in sites:
+        site.wipe()
     shutil.rmtree(root, ignore_errors=True)
-    if crash_points == 0:
+    shutil.rmtree(mnt, ignore_errors=True)
+    if have_strace and n["kill_points"] == 0:
         ctx.broken.append("kill injection produced no crash point (strace inject not working?)")
-    ctx.coverage["strace_stage"] = {"scenarios": len(scen), "kill_points": crash_points, "later_runs": reruns,
-                                    "observed_ops": observed_once}
+    if n["fsize_points"] == 0:
+        ctx.broken.append("no run under a file-size limit was made")
+    cov = {"scenarios": len(scen), "stops_per_path_kind": per_via, "observed_ops": observed_once}
+    cov.update(n)
+    if not have_strace:
+        cov["strace"] = "skipped (strace missing or ptrace unavailable)"
+    ctx.coverage["strace_stage"] = cov
+
+
+def _direct_oracles(ctx, ops):
+    """in-process harness and the real binary; ops = operations extracted from the source, None if the translator failed closed"""
+    # in-process harness: complete runs of the real rewriteFile, prefix replay of the extracted list
+    ctx.log("obligations %s; running the in-process harness" % ("done" if ops else "NOT generated"))
+    rc, out = ctx.go_test("./tools/langlint/", "TestVerifC36", timeout=1500)
+    if rc != 0:
+        ctx.log(out[-3000:])
+        ctx.broken.append("harness TestVerifC36 failed to run (rc=%d)" % rc)
+    cases = ctx.read_jsonl("c36_cases.jsonl")
+    if not cases and ops:
+        ctx.broken.append("harness produced no correspondence cases")
+    ctx.correspond(cases, label="os calls vs model exec")
+    per_class = {}
+    for f in ctx.read_jsonl("c36_failures.jsonl"):
+        per_class[f["class"]] = per_class.get(f["class"], 0) + 1
+        if per_class[f["class"]] <= 6:       # keep room in the replay file for the failures of the real binary below
+            ctx.fail(f["class"], f["what"], input=f.get("input"), got=f.get("got"), want=f.get("want"))
+
+    # the real binary: observed syscalls, SIGKILL before / error in every syscall, file-size limit, full file system, later run
+    ctx.log("harness and correspondence done (%d lines); crash and fault stage on the built binary" % len(cases))
+    _binary_stage(ctx, ops)
+    ctx.log("binary stage done:", ctx.coverage.get("strace_stage"))
+
+    st = (ctx.read_jsonl("c36_stats.json") or [{}])[0]
+    c = st.get("counters", {})
+    ctx.coverage.update({
+        "evaluations": len(cases) + c.get("complete_runs", 0),
+        "distinct_nontrivial": c.get("distinct_nontrivial", 0),
+        "rule": "scenarios: original/new contents (empty, binary, message-like, up to 300 KB), stale temporary/backup files, 5 modes, "
+                "6 file names; every prefix of the extracted operation list (+ a cut-short write) replayed with real os calls; "
+                "random operation lists over the three names; non-trivial = distinct (scenario, non-empty prefix); "
+                "complete runs, and runs whose write fails half-way (EFBIG under a file-size limit), of the real rewriteFile on paths "
+                "that are regular files, symbolic links and hard links; "
+                "kill_points / error_points = real SIGKILLs of the langlint binary before / errors injected into each traced syscall, "
+                "fsize_points = runs stopped in the middle of the write by RLIMIT_FSIZE, enospc_points = runs on a full tmpfs, "
+                "rodir_points = runs in a directory the user cannot write; paths: regular file, symbolic link, hard link",
+        "samples": st.get("samples", []),
+        "counters": c,
+        "extracted_ops": [_op_str(o) for o in ops] if ops else "translator failed closed",
+        "notes": ctx.notes,
+    })
+    return None
 
 
 def run(ctx):
@@ -260,6 +513,9 @@ def run(ctx):
     if not extracted:
         ctx.log(out[-2000:])
         ctx.broken.append("translator extract_c36 does not understand rewriteFile (fails closed)")
+        # the proof obligations cannot be generated; the direct oracles on the real code still run, so that a real
+        # breakage behind the unknown syntax is reported with a failing input
+        _direct_oracles(ctx, None)
         return ctx.finish()
     ops = extracted["ops"]
     with open(os.path.join(ctx.out, "c36_ops.json"), "w") as f:
@@ -288,39 +544,5 @@ theorem extracted_rerun (orig new : Bytes) (hne : orig ≠ new) (fs : FS) (h : f
 theorem extracted_is_model : extracted = steps := by decide
 """)
 
-    # in-process harness: complete runs of the real rewriteFile, prefix replay of the extracted list
-    ctx.log("obligations done; running the in-process harness")
-    rc, out = ctx.go_test("./tools/langlint/", "TestVerifC36", timeout=1500)
-    if rc != 0:
-        ctx.log(out[-3000:])
-        ctx.broken.append("harness TestVerifC36 failed to run (rc=%d)" % rc)
-    cases = ctx.read_jsonl("c36_cases.jsonl")
-    if not cases:
-        ctx.broken.append("harness produced no correspondence cases")
-    ctx.correspond(cases, label="os calls vs model exec")
-    per_class = {}
-    for f in ctx.read_jsonl("c36_failures.jsonl"):
-        per_class[f["class"]] = per_class.get(f["class"], 0) + 1
-        if per_class[f["class"]] <= 6:       # keep room in the replay file for the failures of the real binary below
-            ctx.fail(f["class"], f["what"], input=f.get("input"), got=f.get("got"), want=f.get("want"))
-
-    # the real binary: observed syscalls, SIGKILL before every syscall, later run
-    ctx.log("harness and correspondence done (%d lines); strace stage on the built binary" % len(cases))
-    _strace_stage(ctx, ops)
-    ctx.log("strace stage done:", ctx.coverage.get("strace_stage"))
-
-    st = (ctx.read_jsonl("c36_stats.json") or [{}])[0]
-    c = st.get("counters", {})
-    ctx.coverage.update({
-        "evaluations": len(cases) + c.get("complete_runs", 0),
-        "distinct_nontrivial": c.get("distinct_nontrivial", 0),
-        "rule": "scenarios: original/new contents (empty, binary, message-like, up to 300 KB), stale temporary/backup files, 5 modes, "
-                "6 file names; every prefix of the extracted operation list (+ a cut-short write) replayed with real os calls; "
-                "random operation lists over the three names; non-trivial = distinct (scenario, non-empty prefix); "
-                "kill_points = real SIGKILLs of the langlint binary before each traced syscall",
-        "samples": st.get("samples", []),
-        "counters": c,
-        "extracted_ops": [_op_str(o) for o in ops],
-        "notes": ctx.notes,
-    })
+    _direct_oracles(ctx, ops)
     return ctx.finish()
